@@ -1161,3 +1161,97 @@ pub fn e1() -> BoxedStrategy<Value> {
         })
         .boxed()
 }
+
+// ---- bounded-exhaustive schedules for two-thread micro-programs (two preemption points) ----
+
+struct EMicro {
+    name: &'static str,
+    a: &'static [(EK, u8, u8)],
+    b: &'static [(EK, u8, u8)],
+    /// a third thread that registers and exits immediately (its registry entry gets unlinked by
+    /// whoever traverses next)
+    exiting_third: bool,
+    ka: u32,
+    kb: u32,
+}
+
+const EMICROS: &[EMicro] = &[
+    EMicro {
+        name: "pin+defer+unpin+rounds || pin+defer+unpin+rounds",
+        a: &[(EK::Pin, 0, 0), (EK::Defer, 0, 0), (EK::DropGuard, 0, 0), (EK::Round, 0, 0), (EK::Round, 0, 0), (EK::Round, 0, 0)],
+        b: &[(EK::Pin, 0, 0), (EK::Defer, 0, 3), (EK::DropGuard, 0, 0), (EK::Round, 0, 0), (EK::Round, 0, 0), (EK::Round, 0, 0)],
+        exiting_third: false,
+        ka: 170,
+        kb: 200,
+    },
+    EMicro {
+        name: "pin+burst70+unpin || rounds",
+        a: &[(EK::Pin, 0, 0), (EK::Burst, 2, 0), (EK::DropGuard, 0, 0), (EK::Round, 0, 0)],
+        b: &[(EK::Round, 0, 0), (EK::Round, 0, 0), (EK::Round, 0, 0), (EK::Round, 0, 0)],
+        exiting_third: true,
+        ka: 130,
+        kb: 240,
+    },
+    EMicro {
+        name: "nested pin + reactivate inner + defer || pin+defer+rounds",
+        a: &[(EK::Pin, 0, 0), (EK::Defer, 0, 1), (EK::Pin, 0, 0), (EK::Reactivate, 255, 0), (EK::DropGuard, 255, 0), (EK::Defer, 0, 4), (EK::DropGuard, 0, 0), (EK::Round, 0, 0)],
+        b: &[(EK::Pin, 0, 0), (EK::Defer, 0, 2), (EK::DropGuard, 0, 0), (EK::Round, 0, 0), (EK::Round, 0, 0), (EK::Round, 0, 0), (EK::Round, 0, 0)],
+        exiting_third: false,
+        ka: 80,
+        kb: 270,
+    },
+    EMicro {
+        name: "pin+defer+reactivate_after+unpin || rounds with deferrals",
+        a: &[(EK::Pin, 0, 0), (EK::Defer, 0, 5), (EK::ReactivateAfter, 0, 1), (EK::Defer, 0, 6), (EK::DropGuard, 0, 0), (EK::Round, 0, 0)],
+        b: &[(EK::Round, 0, 0), (EK::Pin, 0, 0), (EK::Defer, 0, 7), (EK::DropGuard, 0, 0), (EK::Round, 0, 0), (EK::Round, 0, 0), (EK::Round, 0, 0)],
+        exiting_third: true,
+        ka: 140,
+        kb: 250,
+    },
+    EMicro {
+        name: "defer + exit with pending garbage || pinned peer + rounds",
+        a: &[(EK::Pin, 0, 0), (EK::Defer, 0, 8), (EK::Defer, 0, 4), (EK::DropGuard, 0, 0)],
+        b: &[(EK::Pin, 0, 0), (EK::Defer, 0, 1), (EK::DropGuard, 0, 0), (EK::Round, 0, 0), (EK::Round, 0, 0), (EK::Round, 0, 0), (EK::Round, 0, 0)],
+        exiting_third: false,
+        ka: 40,
+        kb: 260,
+    },
+];
+
+pub fn emicro_total(tier: crate::runner::Tier) -> u64 {
+    let stride: u32 = tier.pick(3, 1);
+    EMICROS.iter().map(|m| 2 * ((m.ka + stride - 1) / stride + 1) as u64 * ((m.kb + stride - 1) / stride + 1) as u64).sum()
+}
+
+pub fn emicro_enumerate(tier: crate::runner::Tier, i: u64) -> Option<Value> {
+    let stride: u32 = tier.pick(3, 1);
+    let mut rest = i;
+    for m in EMICROS {
+        let (na, nb) = ((m.ka + stride - 1) / stride + 1, (m.kb + stride - 1) / stride + 1);
+        let per = 2 * na as u64 * nb as u64;
+        if rest >= per {
+            rest -= per;
+            continue;
+        }
+        let order = rest / (na as u64 * nb as u64);
+        let r2 = rest % (na as u64 * nb as u64);
+        let (ia, ib) = ((r2 / nb as u64) as u32, (r2 % nb as u64) as u32);
+        let k = if ia + 1 == na { u32::MAX / 2 } else { ia * stride };
+        let mm = if ib + 1 == nb { u32::MAX / 2 } else { ib * stride };
+        let ops = |l: &[(EK, u8, u8)]| l.iter().map(|(k, a, b)| EOp { k: *k, a: *a, b: *b }).collect::<Vec<_>>();
+        let mut threads = vec![ops(m.a), ops(m.b)];
+        let mut sched = Vec::new();
+        if m.exiting_third {
+            threads.push(vec![]);
+            sched.push(Directive { thread: 2, until: Until::End });
+        }
+        let (first, second, kf, ks) = if order == 0 { (0u8, 1u8, k, mm) } else { (1u8, 0u8, mm, k) };
+        sched.push(Directive { thread: first, until: Until::Steps(kf) });
+        sched.push(Directive { thread: second, until: Until::Steps(ks) });
+        sched.push(Directive { thread: first, until: Until::End });
+        sched.push(Directive { thread: second, until: Until::End });
+        let _ = m.name;
+        return Some(serde_json::to_value(EbrCase { align: (i % 5) as u8, threads, sched, private: false }).unwrap());
+    }
+    None
+}
